@@ -53,7 +53,7 @@ class JointExcessJointDegree:
         Enumerates the number of edges of the i-th topology.
         Assumes that the network edges have attribute `topology`.
         """
-        # self._num_edges = {}
+        self._num_edges = {}
         for e in self._G.edges():
             topology: str = self._G.edges[e][NetworkNames.TOPOLOGY]
             self._num_edges[topology] = self._num_edges.get(topology, 0) + 1
